@@ -393,3 +393,4 @@ m("c17-json-empty-payload", "C17", "O17.8", (M + "format_json.py", "        if a
 n("c17-n-empty-payload-ifexp", "C17", (M + "format_json.py", "        args = record.args\n        if args == ({},):  # logger.info('message', {}) -> record.args == ({},)\n            args = {}", "        args = {} if record.args == ({},) else record.args"))
 n("c11-n-lock-short-section", "C11", (R + "meta_runner.py", "        self.running = threading.Event()\n", "        self.running = threading.Event()\n        self._table_lock = threading.Lock()\n"), (R + "meta_runner.py", "        return self._runners[flavour].run_payload(payload)", "        with self._table_lock:\n            runner = self._runners[flavour]\n        return runner.run_payload(payload)"), (R + "meta_runner.py", "        try:\n            runner = self._runners[flavour]\n        except KeyError:", "        try:\n            with self._table_lock:\n                runner = self._runners[flavour]\n        except KeyError:"))
 m("c11-lock-across-execute", "C11", "O11.6", (R + "meta_runner.py", "        self.running = threading.Event()\n", "        self.running = threading.Event()\n        self._table_lock = threading.Lock()\n"), (R + "meta_runner.py", "        return self._runners[flavour].run_payload(payload)", "        with self._table_lock:\n            return self._runners[flavour].run_payload(payload)"), (R + "meta_runner.py", "        try:\n            runner = self._runners[flavour]\n        except KeyError:", "        try:\n            with self._table_lock:\n                runner = self._runners[flavour]\n        except KeyError:"))
+m("revert-fix-C03-eager-format", "C03", "O3.4", (R + "trio_runner.py", '            self._logger.warning("discarding payload %s during shutdown", payload)\n            return', '            self._logger.warning(f"discarding payload {payload} during shutdown")\n            return'))
